@@ -4,21 +4,26 @@ Four parts, each a complete enumeration of a declared finite space:
 
  gmrf  GMRF() against the Gaussian quadratic form built from the matrix returned by
        precision_matrix() of the same object: field length N x field lattice x precision x
-       {plain, weighted, time-aware (every interleaving x 2 tree shapes x sampling ties x
-       rescale omitted/true/false)} x {single, field+precision batched, field batched,
-       tree batched}.
+       {plain, weighted (JSON parameter / tensor given to the constructor), time-aware (every
+       interleaving x 2 tree shapes x sampling ties x rescale omitted/true/false)} x {single,
+       field+precision batched, field batched, tree batched (second row: other heights on the
+       same tree, internal nodes in a different rank order whenever the tree allows it)}.
  gint  GMRFGammaIntegrated() against log of the integral over the precision of
        Gamma(precision; shape, rate) x [the shipped GMRF density of the same variant],
-       same variants, (shape, rate) in {0.001, 0.5, 2}^2, single and batched.
+       same variants, (shape, rate) in {0.001, 0.5, 2}^2, single, field-batched, tree-batched.
  cint  ConstantCoalescentIntegrated against log of the integral over the population size of
        InvGamma(theta; alpha, beta) x [the shipped ConstantCoalescent density], every
-       interleaving x sampling ties x (alpha, beta) menu x {distribution on shuffled heights,
-       model over a tree (2 shapes), model from times/events, batched}.
+       interleaving x sampling ties x (alpha, beta) menu x {distribution on ordered / shuffled
+       heights, model over a tree (2 shapes), batched distribution / batched tree with EVERY
+       interleaving of the same tips as second row}.
  ss    -sum ss_i/theta_i - sum c_i log(theta_i) == log_prob and sum c_i == n-1 for the skyride
        (PiecewiseConstantCoalescent) and the skygrid (PiecewiseConstantCoalescentGrid) on
        every interleaving x sampling ties x every placement of G grid points in the gaps
-       between events / beyond the root x 2 theta vectors x {distribution on shuffled
-       heights, model over a tree, batched theta / heights / both}.
+       between events / beyond the root (+ regular grids from a cut-off) x 2 theta vectors x
+       {distribution on ordered / shuffled heights, model over a tree, model from
+       times/events, batched theta / heights / both / tree - the height-batched ones with
+       every interleaving of the same tips as second row, so that the sorted event lists of
+       the rows differ}.
 
 The gamma / inverse-gamma densities are the ones written in the two docstrings, computed
 with math.lgamma; the integrals are log-domain trapezoid sums over log(scale) with step h and
@@ -105,7 +110,7 @@ def bounds(tier):
                 "time_n": [3, 4, 5], "coal_n": [2, 3, 4, 5, 6], "ss_n": [2, 3, 4, 5], "G": [1, 2, 3],
                 "G_big": {}, "pair_G": {2: 3, 3: 3, 4: 3, 5: 1}}
     return {"Ns": [2, 3, 4, 5, 6, 7, 8, 10, 15, 20, 30, 40, 50], "lattice_max": 7,
-            "gint_lattice_max": 5, "time_n": [3, 4, 5, 6], "coal_n": [2, 3, 4, 5, 6, 7],
+            "gint_lattice_max": 4, "time_n": [3, 4, 5, 6], "coal_n": [2, 3, 4, 5, 6, 7],
             "ss_n": [2, 3, 4, 5, 6], "G": [1, 2, 3], "G_big": {7: [1, 2]},
             "pair_G": {2: 3, 3: 3, 4: 3, 5: 3, 6: 1, 7: 0}}
 
